@@ -354,6 +354,43 @@ func runOrd2(m *Model, r *RuleResult) {
 	chk("pipeline-order", "pipeline element i is options.p(i+1) and its static Phase() is i+1", okOrder, "pipeline is "+strings.Join(got, " "))
 }
 
+// orderedWithinIteration: a and b lie in the same innermost loop; without going through the loop head a can be followed by b
+// and b cannot be followed by a.
+func orderedWithinIteration(a, b ssa.Instruction) bool {
+	if a.Parent() != b.Parent() {
+		return false
+	}
+	loops := naturalLoops(a.Parent())
+	la, lb := loopsContaining(loops, a.Block()), loopsContaining(loops, b.Block())
+	if len(la) == 0 || len(lb) == 0 || la[0] != lb[0] {
+		return false
+	}
+	l := la[0]
+	within := func(from, to ssa.Instruction) bool {
+		if from.Block() == to.Block() {
+			return instrIndex(from) < instrIndex(to)
+		}
+		seen := map[*ssa.BasicBlock]bool{}
+		stack := []*ssa.BasicBlock{from.Block()}
+		for len(stack) > 0 {
+			x := stack[len(stack)-1]
+			stack = stack[:len(stack)-1]
+			for _, sc := range x.Succs {
+				if sc == l.Head || !l.Body[sc] || seen[sc] {
+					continue
+				}
+				if sc == to.Block() {
+					return true
+				}
+				seen[sc] = true
+				stack = append(stack, sc)
+			}
+		}
+		return false
+	}
+	return within(a, b) && !within(b, a)
+}
+
 // ---------- ORD-3 ----------
 
 func runOrd3(m *Model, r *RuleResult) {
@@ -478,7 +515,11 @@ func runOrd3(m *Model, r *RuleResult) {
 					continue
 				}
 				if !instrReaches(a, b) || blockReaches(b.Block(), a.Block()) {
-					ok = false
+					// both in one loop over the nodes: within an iteration the fixed size comes first and the per-node size
+					// cannot come before it (going round the loop is the next node)
+					if !orderedWithinIteration(a, b) {
+						ok = false
+					}
 				}
 			}
 		}
